@@ -26,9 +26,13 @@ import (
 
 	"reservoir/cache"
 	"reservoir/config"
+	"reservoir/db"
+	"reservoir/logging"
 	"reservoir/metrics"
 	"reservoir/proxy"
 	"reservoir/proxy/certs"
+	"reservoir/webserver/api"
+	"reservoir/webserver/auth"
 
 	"verifharness/internal/cfgkit"
 )
@@ -166,6 +170,51 @@ func workable() string {
 	}
 	if bytes.Contains(errlog.Bytes(), []byte("panic")) {
 		return "handler panic: " + clip(errlog.String())
+	}
+	return "ok"
+}
+
+// apiRoutes: the next start's dashboard API on whatever configuration is on disk - logging set up the way
+// main does, then every read route asked with a live session. A handler that panics loses its connection.
+func apiRoutes() (verdict string) {
+	defer func() {
+		if rec := recover(); rec != nil {
+			verdict = fmt.Sprintf("panic while setting up: %v", rec)
+		}
+	}()
+	c2, err := config.LoadOrDefault("var/config.json")
+	if err != nil {
+		return "ok" // refused at start-up: nothing is served
+	}
+	c2.Logging.ToStdout.Overwrite(false) // stdout is this child's protocol channel
+	logging.Init(c2)
+	if err := db.MigrateDatabases(); err != nil {
+		return "ok"
+	}
+	mux := http.NewServeMux()
+	if err := api.New(c2).RegisterHandlers(mux); err != nil {
+		return "RegisterHandlers: " + err.Error()
+	}
+	var errlog bytes.Buffer
+	srv := netx.Server(mux)
+	srv.Config.ErrorLog = newLogger(&errlog)
+	srv.Start()
+	defer srv.Close()
+	sess := auth.CreateSession(1)
+	defer sess.Destroy()
+	cl := &http.Client{Timeout: 5 * time.Second}
+	for _, path := range []string{"/api/version", "/api/config", "/api/config/restart-required", "/api/log", "/api/metrics", "/api/metrics/cache", "/api/metrics/requests", "/api/metrics/system", "/api/auth/me"} {
+		req, _ := http.NewRequest("GET", srv.URL+path, nil)
+		req.AddCookie(&http.Cookie{Name: "reservoir.sid", Value: sess.ID})
+		resp, err := cl.Do(req)
+		if err != nil {
+			return fmt.Sprintf("GET %s: no response (%v); server log: %s", path, err, clip(errlog.String()))
+		}
+		io.Copy(io.Discard, io.LimitReader(resp.Body, 1<<20))
+		resp.Body.Close()
+		if bytes.Contains(errlog.Bytes(), []byte("panic")) {
+			return fmt.Sprintf("GET %s: handler panicked: %s", path, clip(errlog.String()))
+		}
 	}
 	return "ok"
 }
@@ -333,6 +382,8 @@ func main() {
 			if lc, err := config.LoadOrDefault("var/config.json"); err == nil {
 				r.Vector = cfgkit.Vector(lc) // what the next start would run with
 			}
+		case "api":
+			r.Probe = apiRoutes()
 		case "start-from":
 			// a start-up from whatever is on disk: load, then use the loaded configuration the way the running
 			// program does (serve it through the API encoder, accept a valid update and persist it, run a proxy)
